@@ -188,6 +188,9 @@ def install(P):
     def deser_type(ctx, ty, tv, env=None):
         """deserialize a value of Rust type text `ty` (generic parameters already substituted) from abstract value tv"""
         ty = norm_ty(ty)
+        am = getattr(P, "assoc_metadata", None)
+        if am:      # `<L as Layer>::Metadata`: the harness binds the buildpack's associated metadata type
+            ty = re.sub(r"<[\w:]+ as [\w:]*Layer>::Metadata", am, ty)
         if isinstance(tv, MissingDeser):
             h, a = T.head_args(ty)
             if h == "Option":
